@@ -4,18 +4,25 @@ From Coq Require Import ZifyBool ZifyNat.
 Ltac Zify.zify_post_hook ::= Z.div_mod_to_equations.
 
 (* ---------- varint ---------- *)
+Lemma no_overflow_last v s : 0 <= v -> 0 <= s -> v * 2 ^ s < 2 ^ 64 -> (s =? 63) && (2 <=? v) = false.
+Proof.
+  intros Hv Hs Hb. destruct (s =? 63) eqn:E; [|reflexivity]. assert (s = 63) by lia. subst s.
+  destruct (2 <=? v) eqn:E2; [|reflexivity]. exfalso. assert (2 * 2 ^ 63 <= v * 2 ^ 63) by (apply Z.mul_le_mono_nonneg_r; lia).
+  change (2 * 2 ^ 63) with (2 ^ 64) in H. lia.
+Qed.
 Lemma parse_varint_fuel_varint_fuel k : forall v rest n s acc,
-  0 <= v < 128 ^ (Z.of_nat k + 1) -> (k < n)%nat -> 0 <= s ->
+  0 <= v < 128 ^ (Z.of_nat k + 1) -> (k < n)%nat -> 0 <= s -> v * 2 ^ s < 2 ^ 64 ->
   parse_varint_fuel n (varint_fuel k v ++ rest) s acc = Some (acc + v * 2 ^ s, rest).
 Proof.
-  induction k as [|k IH]; intros v rest n s acc Hv Hn Hs.
+  induction k as [|k IH]; intros v rest n s acc Hv Hn Hs Hb.
   - destruct n as [|n]; [lia|]. change (128 ^ (Z.of_nat 0 + 1)) with 128 in Hv.
     cbn [varint_fuel app parse_varint_fuel].
     assert (Hm : v mod 128 = v) by (apply Z.mod_small; lia). rewrite !Hm.
-    destruct (v <? 128) eqn:E; [reflexivity|lia].
+    destruct (v <? 128) eqn:E; [|lia]. rewrite (no_overflow_last v s) by lia. reflexivity.
   - destruct n as [|n]; [lia|]. cbn [varint_fuel].
     destruct (v <? 128) eqn:E.
-    + cbn [app parse_varint_fuel]. assert (Hm : v mod 128 = v) by (apply Z.mod_small; lia). rewrite Hm, E. reflexivity.
+    + cbn [app parse_varint_fuel]. assert (Hm : v mod 128 = v) by (apply Z.mod_small; lia). rewrite Hm, E.
+      rewrite (no_overflow_last v s) by lia. reflexivity.
     + cbn [app parse_varint_fuel].
       assert (H128 : (128 + v mod 128) mod 128 = v mod 128).
       { rewrite <- Zplus_mod_idemp_l. rewrite Z_mod_same_full. simpl. apply Z.mod_mod. lia. }
@@ -29,6 +36,10 @@ Proof.
       * rewrite Nat2Z.inj_succ in Hv. replace (Z.succ (Z.of_nat k) + 1) with (Z.of_nat k + 1 + 1) in Hv by lia.
         rewrite Z.pow_add_r in Hv by lia. change (128 ^ 1) with 128 in Hv.
         split; [apply Z.div_pos; lia|]. apply Z.div_lt_upper_bound; lia.
+      * rewrite Z.pow_add_r by lia. change (2 ^ 7) with 128.
+        assert (0 < 2 ^ s) by (apply Z.pow_pos_nonneg; lia).
+        assert (v / 128 * 128 <= v) by (pose proof (Z.div_mod v 128 ltac:(lia)); pose proof (Z.mod_pos_bound v 128 ltac:(lia)); lia).
+        assert (v / 128 * 128 * 2 ^ s <= v * 2 ^ s) by (apply Z.mul_le_mono_nonneg_r; lia). lia.
 Qed.
 
 Lemma varint_fuel_bound v : 0 <= v -> v < 128 ^ (Z.of_nat (Z.to_nat (Z.log2 v) / 7) + 1).
@@ -123,13 +134,89 @@ Lemma parse_varint_fuel_consumes n : forall bs s acc v r,
 Proof.
   induction n as [|n IH]; intros bs s acc v r H; simpl in H; [discriminate|].
   destruct bs as [|b bs]; [discriminate|]. destruct (b <? 128).
-  - inversion H; subst. simpl. lia.
+  - destruct ((s =? 63) && (2 <=? b)); [discriminate|]. inversion H; subst. simpl. lia.
   - apply IH in H. simpl. lia.
 Qed.
 Lemma parse_varint_consumes bs v r : parse_varint bs = Some (v, r) -> (length r < length bs)%nat.
 Proof.
   unfold parse_varint. destruct (parse_varint_fuel 10 bs 0 0) as [[v' r']|] eqn:E; [|discriminate].
   intros H. inversion H; subst. eapply parse_varint_fuel_consumes. exact E.
+Qed.
+
+(* ---------- groups (skipped as unknown fields) ---------- *)
+Lemma skip_group_consumes n : forall d fld bs r, skip_group n d fld bs = Some r -> (length r < length bs)%nat.
+Proof.
+  induction n as [|n IH]; intros d fld bs r H; [discriminate|]. cbn [skip_group] in H.
+  destruct (d <? 0); [discriminate|].
+  destruct (parse_varint bs) as [[t r0]|] eqn:Et; [|discriminate].
+  pose proof (parse_varint_consumes _ _ _ Et) as Hr.
+  destruct ((t / 8 <? 1) || (2 ^ 29 <=? t / 8)); [discriminate|].
+  destruct (t mod 8 =? 4). { destruct (t / 8 =? fld); [|discriminate]. inversion H; subst. exact Hr. }
+  destruct (t mod 8 =? 0).
+  { destruct (parse_varint r0) as [[v r']|] eqn:Ev; [|discriminate]. pose proof (parse_varint_consumes _ _ _ Ev). apply IH in H. lia. }
+  destruct (t mod 8 =? 2).
+  { destruct (parse_varint r0) as [[len r']|] eqn:Ev; [|discriminate]. pose proof (parse_varint_consumes _ _ _ Ev).
+    destruct (Z.of_nat (length r') <? len); [discriminate|]. apply IH in H. rewrite skipn_length in H. lia. }
+  destruct (t mod 8 =? 1). { destruct (length r0 <? 8)%nat; [discriminate|]. apply IH in H. rewrite skipn_length in H. lia. }
+  destruct (t mod 8 =? 5). { destruct (length r0 <? 4)%nat; [discriminate|]. apply IH in H. rewrite skipn_length in H. lia. }
+  destruct (t mod 8 =? 3); [|discriminate].
+  destruct (skip_group n (d - 1) (t / 8) r0) as [r'|] eqn:Eg; [|discriminate]. apply IH in Eg. apply IH in H. lia.
+Qed.
+
+Lemma skip_group_fuel_enough n : forall m d fld bs, (length bs < n)%nat -> (length bs < m)%nat ->
+  skip_group n d fld bs = skip_group m d fld bs.
+Proof.
+  induction n as [|n IH]; intros m d fld bs Hn Hm; [lia|]. destruct m as [|m]; [lia|]. cbn [skip_group].
+  destruct (d <? 0); [reflexivity|].
+  destruct (parse_varint bs) as [[t r0]|] eqn:Et; [|reflexivity].
+  pose proof (parse_varint_consumes _ _ _ Et) as Hr.
+  destruct ((t / 8 <? 1) || (2 ^ 29 <=? t / 8)); [reflexivity|].
+  destruct (t mod 8 =? 4); [reflexivity|].
+  destruct (t mod 8 =? 0).
+  { destruct (parse_varint r0) as [[v r']|] eqn:Ev; [|reflexivity]. pose proof (parse_varint_consumes _ _ _ Ev). apply IH; lia. }
+  destruct (t mod 8 =? 2).
+  { destruct (parse_varint r0) as [[len r']|] eqn:Ev; [|reflexivity]. pose proof (parse_varint_consumes _ _ _ Ev).
+    destruct (Z.of_nat (length r') <? len); [reflexivity|]. apply IH; rewrite skipn_length; lia. }
+  destruct (t mod 8 =? 1). { destruct (length r0 <? 8)%nat; [reflexivity|]. apply IH; rewrite skipn_length; lia. }
+  destruct (t mod 8 =? 5). { destruct (length r0 <? 4)%nat; [reflexivity|]. apply IH; rewrite skipn_length; lia. }
+  destruct (t mod 8 =? 3); [|reflexivity].
+  rewrite (IH m (d - 1) (t / 8) r0) by lia.
+  destruct (skip_group m (d - 1) (t / 8) r0) as [r'|] eqn:Eg; [|reflexivity].
+  pose proof (skip_group_consumes _ _ _ _ _ Eg). apply IH; lia.
+Qed.
+
+Lemma parse_varint_fuel_skipn n : forall bs s acc v r, parse_varint_fuel n bs s acc = Some (v, r) -> exists k, r = skipn k bs.
+Proof.
+  induction n as [|n IH]; intros bs s acc v r E; simpl in E; [discriminate|].
+  destruct bs as [|b bs]; [discriminate|]. destruct (b <? 128).
+  - destruct ((s =? 63) && (2 <=? b)); [discriminate|]. inversion E; subst. exists 1%nat. reflexivity.
+  - apply IH in E. destruct E as (k & ->). exists (S k). reflexivity.
+Qed.
+
+Lemma skip_group_suffix n : forall d fld bs r, skip_group n d fld bs = Some r -> exists k, r = skipn k bs.
+Proof.
+  assert (Hv : forall bs v r, parse_varint bs = Some (v, r) -> exists k, r = skipn k bs).
+  { intros bs v r H. unfold parse_varint in H. destruct (parse_varint_fuel 10 bs 0 0) as [[v' r']|] eqn:E; [|discriminate].
+    inversion H; subst. exact (parse_varint_fuel_skipn _ _ _ _ _ _ E). }
+  assert (Hcomp : forall (bs : bytes) a b, skipn a (skipn b bs) = skipn (b + a) bs).
+  { intros bs a b. revert bs. induction b as [|b IHb]; intros bs; [reflexivity|]. destruct bs; [destruct a; reflexivity|]. cbn [skipn Nat.add]. apply IHb. }
+  induction n as [|n IH]; intros d fld bs r H; [discriminate|]. cbn [skip_group] in H.
+  destruct (d <? 0); [discriminate|].
+  destruct (parse_varint bs) as [[t r0]|] eqn:Et; [|discriminate]. destruct (Hv _ _ _ Et) as (k0 & ->).
+  destruct ((t / 8 <? 1) || (2 ^ 29 <=? t / 8)); [discriminate|].
+  destruct (t mod 8 =? 4). { destruct (t / 8 =? fld); [|discriminate]. inversion H; subst. exists k0. reflexivity. }
+  destruct (t mod 8 =? 0).
+  { destruct (parse_varint (skipn k0 bs)) as [[v r']|] eqn:Ev; [|discriminate]. destruct (Hv _ _ _ Ev) as (k1 & ->).
+    apply IH in H. destruct H as (k2 & ->). rewrite !Hcomp. eexists; reflexivity. }
+  destruct (t mod 8 =? 2).
+  { destruct (parse_varint (skipn k0 bs)) as [[len r']|] eqn:Ev; [|discriminate]. destruct (Hv _ _ _ Ev) as (k1 & ->).
+    destruct (Z.of_nat (length (skipn k1 (skipn k0 bs))) <? len); [discriminate|].
+    apply IH in H. destruct H as (k2 & ->). rewrite !Hcomp. eexists; reflexivity. }
+  destruct (t mod 8 =? 1). { destruct (length (skipn k0 bs) <? 8)%nat; [discriminate|]. apply IH in H. destruct H as (k2 & ->). rewrite !Hcomp. eexists; reflexivity. }
+  destruct (t mod 8 =? 5). { destruct (length (skipn k0 bs) <? 4)%nat; [discriminate|]. apply IH in H. destruct H as (k2 & ->). rewrite !Hcomp. eexists; reflexivity. }
+  destruct (t mod 8 =? 3); [|discriminate].
+  destruct (skip_group n (d - 1) (t / 8) (skipn k0 bs)) as [r'|] eqn:Eg; [|discriminate].
+  apply IH in Eg. destruct Eg as (k1 & ->). apply IH in H. destruct H as (k2 & ->). rewrite !Hcomp. eexists; reflexivity.
 Qed.
 
 Lemma parse_fields_fuel_enough n : forall m bs, (length bs < n)%nat -> (length bs < m)%nat ->
@@ -153,7 +240,10 @@ Proof.
   { destruct (length r <? 8)%nat; [reflexivity|]. f_equal. apply IH; rewrite skipn_length; simpl in *; lia. }
   destruct (t mod 8 =? 5).
   { destruct (length r <? 4)%nat; [reflexivity|]. f_equal. apply IH; rewrite skipn_length; simpl in *; lia. }
-  reflexivity.
+  destruct (t mod 8 =? 3); [|reflexivity].
+  rewrite (skip_group_fuel_enough n m group_depth_limit (t / 8) r) by (simpl in *; lia).
+  destruct (skip_group m group_depth_limit (t / 8) r) as [r'|] eqn:Eg; [|reflexivity].
+  pose proof (skip_group_consumes _ _ _ _ _ Eg). apply IH; simpl in *; lia.
 Qed.
 
 Lemma parse_fields_fuel_parse bs n : (length bs < n)%nat -> parse_fields_fuel n bs = parse_fields bs.
